@@ -77,6 +77,11 @@ func (w *World) writeReplayTestFiles(workdir string) (overlayPath string) {
 	repl := map[string]string{}
 	for vp, rp := range w.overlay {
 		repl[vp] = rp
+		if b, ok := w.pruned[vp]; ok {
+			fn := filepath.Join(workdir, "pruned_"+strings.ReplaceAll(strings.TrimPrefix(vp, w.repo+"/"), "/", "_"))
+			os.WriteFile(fn, b, 0o644)
+			repl[vp] = fn
+		}
 	}
 	// one generated _test.go per package with harnesses
 	for rel, p := range w.pkgs {
@@ -236,6 +241,7 @@ func cmdCheck(args []string) {
 	replayDir := filepath.Join(*vdir, "replays", *prop)
 	replayed := 0
 	unreplayed := 0
+	var notStatable []string
 	const maxReplays = 8
 	knownSeen := map[string]bool{}
 
@@ -297,6 +303,12 @@ func cmdCheck(args []string) {
 		s, rep := rr.s, rr.rep
 		reports = append(reports, rep)
 		if rep.Error != "" {
+			if s.Optional && strings.HasPrefix(rep.Error, "not statable on this tree") {
+				// an optional lemma about an unexported function that the tree no longer has in that form
+				notStatable = append(notStatable, s.Name)
+				lines = append(lines, fmt.Sprintf("NOTE property=%s harness=%s is %s; the property is decided by the remaining harnesses", *prop, s.Name, rep.Error))
+				continue
+			}
 			inconclusive++
 			lines = append(lines, fmt.Sprintf("INCONCLUSIVE property=%s harness=%s: %s", *prop, s.Name, rep.Error))
 			continue
@@ -526,6 +538,7 @@ func cmdCheck(args []string) {
 			"exhaustive":          allComplete(reports),
 			"known_findings_seen": len(knownSeen),
 			"static_scan":         scan,
+			"harnesses_not_statable_on_this_tree": notStatable,
 			"explanation":         explanationFor(*prop),
 		},
 		"assumptions": []string{
